@@ -1,10 +1,10 @@
 SPECIFICATION Spec
 CONSTANTS
     LeafNames = {"a", "b"}
-    UserTimes = {}
-    MaxDepth = 3
+    UserTimes <- MCUserTimesT
+    MaxDepth = 2
     TimeChoices <- MCTimeChoices1
-    MaxOps = 1
+    MaxOps = 2
     Schedules = {}
     Base = 0
     SpanLens = {}
